@@ -1,6 +1,8 @@
 package main
 
 import (
+	"encoding/hex"
+	"strings"
 	"regexp"
 	"math/big"
 	"fmt"
@@ -80,6 +82,7 @@ func (e *Engine) concretize(st *State, t *Term) *Term {
 // regexMatchTerm is the uninterpreted "pattern matches somewhere in / all of subject" predicate of the regexp model.
 func (e *Engine) regexMatchTerm(pat, subj StringVal) *Term {
 	fn := "M"
+	var customDeco [2]string
 	if pat.Atom != nil {
 		switch {
 		case pat.Pre == "^" && pat.Suf == "$":
@@ -90,7 +93,10 @@ func (e *Engine) regexMatchTerm(pat, subj StringVal) *Term {
 		case pat.Pre == "" && pat.Suf == "$":
 			fn = "Msuffix"
 		default:
-			unsupported("regexp pattern %q + atom + %q", pat.Pre, pat.Suf)
+			// any other decoration of an abstract pattern is a predicate of its own (nothing relates it to M): the
+			// verdicts of such a pattern are unconstrained, except on concrete members (real regexp engine, below)
+			fn = "Mdeco__" + hex.EncodeToString([]byte(pat.Pre)) + "_" + hex.EncodeToString([]byte(pat.Suf))
+			customDeco = [2]string{pat.Pre, pat.Suf}
 		}
 		pat.Pre, pat.Suf = "", ""
 	}
@@ -103,7 +109,10 @@ func (e *Engine) regexMatchTerm(pat, subj StringVal) *Term {
 		if c, ok := subj.Concrete(); ok {
 			scs = []string{c}
 		}
-		deco := map[string][2]string{"M": {"^(?:", ")$"}, "Munanchored": {"(?:", ")"}, "Mprefix": {"^(?:", ")"}, "Msuffix": {"(?:", ")$"}}[fn]
+		deco, known := map[string][2]string{"M": {"^(?:", ")$"}, "Munanchored": {"(?:", ")"}, "Mprefix": {"^(?:", ")"}, "Msuffix": {"(?:", ")$"}}[fn]
+		if !known {
+			deco = customDeco
+		}
 		for _, pc := range pcs {
 			re, err := regexp.Compile(deco[0] + pc + deco[1])
 			if err != nil {
@@ -117,7 +126,7 @@ func (e *Engine) regexMatchTerm(pat, subj StringVal) *Term {
 	}
 	args := []*Term{e.strID(pat), e.strID(subj)}
 	r := e.uf(fn, args, BoolSort)
-	if fn != "M" {
+	if fn != "M" && !strings.HasPrefix(fn, "Mdeco__") {
 		// a full match is in particular a prefix, suffix and substring match
 		e.axiom("anch|"+r.String(), Implies(e.uf("M", args, BoolSort), r))
 	}
